@@ -300,3 +300,37 @@ Proof.
   - cbn. unfold permute_vec. now rewrite map_length.
 Qed.
 End Mat.
+
+(** * position of an index in a permutation (inverse relabelling of the parameters) *)
+Fixpoint pos (i : nat) (l : list nat) : nat :=
+  match l with [] => 0%nat | x :: t => if Nat.eqb x i then 0%nat else S (pos i t) end.
+
+Lemma nth_pos l i : In i l -> (pos i l < length l)%nat /\ nth (pos i l) l 0%nat = i.
+Proof.
+  induction l as [|x t IH]; [intros []|]. intros Hin. cbn [pos].
+  destruct (Nat.eqb x i) eqn:E.
+  - apply Nat.eqb_eq in E. split; [cbn; lia|exact E].
+  - apply Nat.eqb_neq in E. destruct Hin as [->|Hin]; [congruence|].
+    destruct (IH Hin) as [A B]. split; [cbn; lia|exact B].
+Qed.
+
+Lemma pos_nth l j : NoDup l -> (j < length l)%nat -> pos (nth j l 0%nat) l = j.
+Proof.
+  revert j. induction l as [|x t IH]; intros j Hnd Hj; [cbn in Hj; lia|].
+  inversion Hnd as [|? ? Hx Ht]; subst. destruct j as [|j].
+  - cbn. now rewrite Nat.eqb_refl.
+  - cbn [nth pos]. cbn in Hj.
+    destruct (Nat.eqb x (nth j t 0%nat)) eqn:E.
+    + apply Nat.eqb_eq in E. exfalso. apply Hx. rewrite E. apply nth_In. lia.
+    + f_equal. apply IH; [exact Ht|lia].
+Qed.
+
+Lemma wf_relab_NoDup n T : wf_relab n T -> NoDup (map t_idx T).
+Proof.
+  intros [H _]. eapply Permutation_NoDup; [apply Permutation_sym, H|apply seq_NoDup].
+Qed.
+
+Lemma wf_relab_In n T i : wf_relab n T -> (i < n)%nat -> In i (map t_idx T).
+Proof.
+  intros [H _] Hi. eapply Permutation_in; [apply Permutation_sym, H|]. apply in_seq. lia.
+Qed.
